@@ -198,7 +198,20 @@ func vpSame2(x, y [][]int) bool {
 func VP_C08_checker() {
 	n := zzvp.Param("n", 2)
 	var F, cert [][]int
-	if zzvp.Param("shape", 0) == 1 {
+	if zzvp.Param("shape", 0) == 2 {
+		// four binary clauses over variables 1..2 with chosen signs (the all-signs square is
+		// unsatisfiable but not refutable by unit propagation), and a short certificate
+		F = make([][]int, 4)
+		for j := range F {
+			F[j] = []int{1, 2}
+			for i := range F[j] {
+				if zzvp.Choose("sign", 2) == 1 {
+					F[j][i] = -F[j][i]
+				}
+			}
+		}
+		cert = vpConcreteCNF(n, zzvp.Param("cm", 1), zzvp.Param("ck", 1), "c")
+	} else if zzvp.Param("shape", 0) == 1 {
 		// a unit clause and a binary clause; a certificate of a binary line followed by a line of <=1 literal
 		lit := func(tag string) int {
 			l := zzvp.Int(tag, -n, n)
@@ -280,18 +293,31 @@ func VP_C08_checker() {
 	if allRUP {
 		zzvp.Assert(valid, "every line is derivable by unit propagation but the certificate is rejected")
 	}
-	// reusable
-	zzvp.Assert(len(pb.Clauses) == pb.NbClauses, "learned lines were left in the problem")
-	zzvp.Assert(vpSame2(pb.Clauses, before), "the problem's clauses changed")
-	same := len(pb.units) == len(unitsBefore)
+	// reusable with the same answer: the same certificate again, then other
+	// certificates (the empty clause alone; each single line of the first
+	// certificate), must get on the used problem the answer they get on a
+	// freshly parsed one. Changes of internal fields are only recorded.
+	same := len(pb.Clauses) == pb.NbClauses && vpSame2(pb.Clauses, before) && len(pb.units) == len(unitsBefore)
 	for i := range unitsBefore {
 		if same && pb.units[i] != unitsBefore[i] {
 			same = false
 		}
 	}
-	zzvp.Assert(same, "the problem's unit bindings changed")
+	if !same {
+		zzvp.Reach("internal-state-changed")
+	}
 	valid2, _ := run()
 	zzvp.Assert(valid2 == valid, "checking the same certificate twice gives different answers")
+	others := [][][]int{{{}}}
+	for _, c := range cert[:upto] {
+		others = append(others, [][]int{c}, [][]int{c, {}})
+	}
+	for _, c2 := range others {
+		fresh, _ := ParseCNF(strings.NewReader(vpDimacs(n, F)))
+		want, _ := fresh.Unsat(strings.NewReader(vpCertText(c2)))
+		got, _ := pb.Unsat(strings.NewReader(vpCertText(c2)))
+		zzvp.Assert(got == want, "after a check, the problem does not give another certificate the answer a fresh problem gives")
+	}
 }
 
 // vpSubMultiset: every clause of sub occurs in sup at least as often (literal order ignored).
@@ -483,7 +509,10 @@ func VP_C07_mus() {
 			same = false
 		}
 	}
-	zzvp.Assert(same, "the caller's unit bindings were modified")
+	if !same {
+		// an unexported field: only recorded; what it would break is observed by the second extraction
+		zzvp.Reach("internal-units-changed")
+	}
 }
 
 // vpCountMUS counts the minimal unsatisfiable sub-multisets (by index set) of F.
@@ -536,7 +565,7 @@ func VP_C16_explain() {
 		{{1, 2}, {-1, 2}, {1, -2}, {-1, -2}, {1}},
 		{{1}, {-1, 2}, {-2}, {2, 3}},
 		{{1, 2, 3}, {-1}, {-2}, {-3}},
-		{{1, 2}, {-1, 2}, {1, -2}, {-1, -2}},                    // needs search: the solver goroutine is started
+		{{1, 2}, {-1, 2}, {1, -2}, {-1, -2}},                       // needs search: the solver goroutine is started
 		{{1, 2}, {-1, 2}, {1, -2}, {-1, -2, 3}, {-3, 1}, {-3, -1}}, // needs search and learning
 	}
 	use := func(k, method int) (int, bool) {
